@@ -58,6 +58,7 @@ def run_shard(spec, acc):
     if k == "histories":
         for i in range(spec["pools"]):
             histories(rnd, spec["interleavings"], acc, sample=(i == 0))
+            after_dead_architectures(rnd, acc)
             for _ in range(6):
                 layer_rule_two_architectures(rnd, acc)
     elif k == "permutations":
@@ -126,6 +127,44 @@ def make_pool(rnd, mods, imps, n=40, puml_dir=None):
             mode = rnd.random() < 0.5
             pool.append((f"diagram{i}", (lambda p=path, m=mode: DiagramRule(should_only_rule=m).from_file(Path(p)).base_module_included_in_module_names()), {"diagram": rel, "should_only": mode}))
     return pool
+
+
+def after_dead_architectures(rnd, acc, rounds=12):
+    """A process that builds an architecture, evaluates rules, drops it and builds the next one (a test session over
+    several projects, a watch mode): architectures that share module names but differ below them follow one another, each
+    at whatever address the allocator hands out - often the one of its dead predecessor.  The outcome of a rule on the
+    architecture at hand must equal the outcome on a twin built from the same data while the first is still alive (the twin
+    cannot share its address)."""
+    import gc
+
+    base = random_tree(rnd, 7, 10)
+    case = {"kind": "dead-architectures", "base": base}
+    for r in range(rounds):
+        # same names on top, different modules below them in every round
+        parents = [m for m in base if m != "r"]
+        extra = sorted({rnd.choice(parents) + "." + rnd.choice(["x", "y", "z", "w", "v"]) for _ in range(rnd.randint(1, 4))} - set(base))
+        mods = base + extra
+        imps = random_imports(rnd, mods, k_max=10)
+        names = [m for m in mods if m != "r"]
+        cfgs = []
+        for _ in range(4):
+            k1, k2 = rnd.choice(["named", "sub"]), rnd.choice(["named", "sub"])
+            cfgs.append({"verb": rnd.choice(rrule.VERBS), "dir": rnd.choice(rrule.DIRS), "exc": rnd.random() < 0.5, "subs": [(k1, rnd.choice(parents))], "objs": [(k2, rnd.choice(parents))], "anything": False})
+        cfgs.append({"verb": "should_not", "dir": rnd.choice(rrule.DIRS), "exc": False, "subs": [("named", rnd.choice(parents))], "objs": [], "anything": True})
+        cfgs.append({"verb": rnd.choice(rrule.VERBS), "dir": rnd.choice(rrule.DIRS), "exc": False, "subs": [("regex", r"r\.[a-z_0-9]+$")], "objs": [("named", rnd.choice(names))], "anything": False})
+        ev = build(mods, imps, check=False)
+        first = [run(mk_rule(c), ev) for c in cfgs]
+        twin = build(mods, imps, check=False)
+        second = [run(mk_rule(c), twin) for c in cfgs]
+        acc.evaluated(2 * len(cfgs))
+        acc.count("rule_outcomes_compared_with_a_twin_after_dead_architectures", len(cfgs))
+        for c, o1, o2 in zip(cfgs, first, second):
+            if o1 != o2:
+                HUB.case = dict(case, round=r, mods=mods, imps=imps, cfg=c)
+                HUB.violation("C15", f"outcome-depends-on-earlier-architectures:{rrule.shape(c) if c['subs'][0][0] != 'regex' else 'regex'}", f"the same rule on two architectures built from the same data gave {o1[0]} and {o2[0]} (round {r} of a build / evaluate / drop loop)", {"first": o1, "twin": o2, "cfg": c})
+        del ev, twin
+        if r % 3 == 0:
+            gc.collect()
 
 
 def histories(rnd, n_inter, acc, sample=False):
@@ -570,7 +609,7 @@ def replay(case, acc):
 
 def floors(acc, tier):
     why = []
-    for c, n in (("purity_snapshots", 5000), ("history_comparisons", 3000), ("interleavings", 50), ("re_applications", 500), ("evaluations_on_another_architecture", 100), ("layer_rule_reapplied_with_unmentioned_regex_layer", 100), ("enumeration_trees_with_symlinked_package", 5), ("enumeration_trees_with_file_beside_package", 5), ("permuted_anything_rules_with_nested_subjects", 20), ("argument_permutations", 300), ("enumerations_shuffled", 50), ("hash_seed_runs", 8), ("threaded_evaluations", 100), ("scan_results_first_used_after_a_change", 20)):
+    for c, n in (("purity_snapshots", 5000), ("history_comparisons", 3000), ("interleavings", 50), ("re_applications", 500), ("evaluations_on_another_architecture", 100), ("layer_rule_reapplied_with_unmentioned_regex_layer", 100), ("enumeration_trees_with_symlinked_package", 5), ("enumeration_trees_with_file_beside_package", 5), ("permuted_anything_rules_with_nested_subjects", 20), ("argument_permutations", 300), ("enumerations_shuffled", 50), ("hash_seed_runs", 8), ("threaded_evaluations", 100), ("scan_results_first_used_after_a_change", 20), ("rule_outcomes_compared_with_a_twin_after_dead_architectures", 500)):
         if acc.counters[c] < n:
             why.append(f"{c}: only {acc.counters[c]}")
     return why
